@@ -1019,6 +1019,16 @@ theorem promote_bits_le_int {L : IntTy} (hw : L.bits ≤ 2147483647) : (promote 
   · simp [i32]
   · exact hw
 
+theorem hasMostNegative_signed {T : IntTy} (hs : T.signed = true) : hasMostNegative T = true := by
+  simp only [hasMostNegative, hs, IntTy.lowest, IntTy.max, ite_true, Bool.true_and, decide_eq_true_eq]
+  omega
+
+theorem max_promote_bits (L : IntTy) : max (promote L).bits L.bits = (promote L).bits :=
+  Nat.max_eq_left (promote_bits_le L)
+
+theorem isShift_shl : isShift .shl = true := by decide
+theorem isShift_shr : isShift .shr = true := by decide
+
 section shl
 variable {L R : IntTy} (hL : 1 ≤ L.bits) (hR : 1 ≤ R.bits) (hw : L.bits ≤ 2147483647) {l : Int} {j : Nat}
   (hl : L.InRange l) (hr : R.InRange (j : Int))
@@ -1074,8 +1084,75 @@ theorem shl_pos_eq :
     have : ¬ l * 2^j > (promote L).max := by omega
     simp only [h1, decide_false, Bool.false_eq_true, ite_false, this]
 
-theorem shl_neg_eq (hm : ¬(l = -1 ∧ j = (promote L).digits)) :
+theorem shl_neg_eq :
     isOverflowBin .shl false (L, l) (R, (j : Int)) = .ok (decide (l * 2^j < (promote L).lowest)) := by
+  have hT1 := promote_bits_ge hL
+  have hlT := promote_inRange hL hl
+  have hl1 := hlT.1; have hl2 := hlT.2
+  have hrP := promote_inRange hR hr
+  have hPR1 := promote_bits_ge hR
+  have h0 := zero_le_max (promote L)
+  have h0R := zero_le_max (promote R)
+  have hzR : (promote R).InRange 0 := ⟨h0R.1, h0R.2⟩
+  have hdb := digits_le_bits (promote L)
+  have hbits := promote_bits_le_int hw
+  have hR32 := (lo_hi (promote R) (promote_bits_ge32 R)).2
+  have hpj := two_pow_pos j
+  have hlow := IntTy.lowest_eq (promote L)
+  simp only [isOverflowBin, binResultTy, posDigits]
+  by_cases hLs : L.signed = true
+  · have hTs := promote_signed_of_signed hLs
+    have hbd := IntTy.bits_eq_digits_succ hTs hT1
+    have hdR : (promote R).InRange ((promote L).digits : Int) := ⟨by omega, by omega⟩
+    have hdR1 : (promote R).InRange (((promote L).digits : Int) + 1) := ⟨by omega, by omega⟩
+    have hm1 : (promote L).InRange (-1) := by
+      have := minus_one_inRange hLs; exact this
+    have hm1' : (promote (promote L)).InRange (-1) := by rw [promote_promote]; exact hm1
+    simp only [hTs, ite_true] at hlow
+    simp only [hLs, hasMostNegative_signed hTs, ite_true, Bool.not_true, Bool.false_eq_true, ite_false,
+      cmp_lit hL .lt hl (by
+      have := zero_le_max (promote L); exact ⟨this.1, this.2⟩), cmp_lit hR .gt hr hzR,
+      cmp_lit hR .lt hr hdR1, cmpInt, andThen]
+    by_cases h1 : l < 0
+    · by_cases h2 : (j : Int) > 0
+      · by_cases h3 : (j : Int) < (promote L).digits + 1
+        · have hk : (promote R).InRange (((promote L).digits : Int) - j) := ⟨by omega, by omega⟩
+          have hsub := cSub_ev (usualArith_i32_left R) hPR1 hdR hrP hk
+          have ek : ((promote L).digits : Int) - j = (((promote L).digits - j : Nat) : Int) := by omega
+          have hkb : (promote L).digits - j < (promote L).bits := by omega
+          have hpk := two_pow_pos ((promote L).digits - j)
+          have ⟨b1, b2⟩ := shr_neg_bounds (l := l) hpk h1
+          have hs : (promote L).InRange (l / 2^((promote L).digits - j)) := ⟨by omega, by omega⟩
+          have e2 : (2:Int)^(promote L).digits = 2^((promote L).digits - j) * 2^j := by
+            rw [← two_pow_add]; congr 1; omega
+          have ht := shl_test_neg (l := l) hpk hpj h1
+          rw [← e2, ← hlow] at ht
+          simp only [h1, h2, h3, decide_true, ite_true, lit, hsub, Res.bind_ok, ek, cShr_ev hkb, Res.pure_eq]
+          rw [show ((i32, (-1:Int)) : TV) = lit (-1) from rfl, cmp_lit hT1 .ne hs hm1']
+          simp only [cmpInt, ht]
+        · have : l * 2^j < (promote L).lowest := by
+            have := two_pow_le (show (promote L).digits + 1 ≤ j by omega)
+            rw [two_pow_succ] at this
+            have := mul_pow_le hpj (show l ≤ -1 by omega)
+            have := pow_digits_pos (promote L)
+            omega
+          simp only [h1, h2, h3, decide_true, decide_false, ite_true, Bool.false_eq_true, ite_false, this]
+      · have hj0 : j = 0 := by omega
+        subst hj0
+        have : ¬ l * 2^0 < (promote L).lowest := by simp; omega
+        simp only [h1, h2, decide_true, decide_false, ite_true, Bool.false_eq_true, ite_false, this]
+    · have := (mul_sign_facts l (2^j)).1 (by omega) (by omega)
+      have : ¬ l * 2^j < (promote L).lowest := by omega
+      simp only [h1, decide_false, Bool.false_eq_true, ite_false, this]
+  · have hLu : L.signed = false := by simpa using hLs
+    have := nonneg_of_unsigned hLu hl
+    have := (mul_sign_facts l (2^j)).1 (by omega) (by omega)
+    have : ¬ l * 2^j < (promote L).lowest := by omega
+    simp only [hLu, Bool.not_false, ite_true, this, decide_false]
+
+/-- the as-found negative test is exact outside `-1 << digits` -/
+theorem shl_neg_orig_eq (hm : ¬(l = -1 ∧ j = (promote L).digits)) :
+    isOverflowShlNegOrig (L, l) (R, (j : Int)) = .ok (decide (l * 2^j < (promote L).lowest)) := by
   have hT1 := promote_bits_ge hL
   have hlT := promote_inRange hL hl
   have hl1 := hlT.1; have hl2 := hlT.2
@@ -1090,7 +1167,7 @@ theorem shl_neg_eq (hm : ¬(l = -1 ∧ j = (promote L).digits)) :
   have hdR : (promote R).InRange ((promote L).digits : Int) := ⟨by omega, by omega⟩
   have hpj := two_pow_pos j
   have hlow := IntTy.lowest_eq (promote L)
-  simp only [isOverflowBin, binResultTy, posDigits]
+  simp only [isOverflowShlNegOrig, binResultTy, posDigits]
   by_cases hLs : L.signed = true
   · have hTs := promote_signed_of_signed hLs
     have hm1 : (promote L).InRange (-1) := by
@@ -1141,50 +1218,172 @@ theorem shl_neg_eq (hm : ¬(l = -1 ∧ j = (promote L).digits)) :
     have : ¬ l * 2^j < (promote L).lowest := by omega
     simp only [hLu, Bool.not_false, ite_true, this, decide_false]
 
-theorem checkedBin_shl_eq (path : Path) {tag : OvTag} (ht : tag ≠ .nat)
-    (hz : ¬(l = 0 ∧ j ≥ (promote L).bits)) (hm : ¬(l = -1 ∧ j = (promote L).digits)) :
+/-- the as-found negative test agrees with the repaired one except at `-1 << digits` -/
+theorem shl_neg_orig_minus_one (hm : l = -1 ∧ j = (promote L).digits) :
+    isOverflowShlNegOrig (L, l) (R, (j : Int)) = .ok true := by
+  obtain ⟨rfl, rfl⟩ := hm
+  have hLs : L.signed = true := by
+    by_cases h : L.signed = true
+    · exact h
+    · have := nonneg_of_unsigned (by simpa using h) hl; omega
+  have hrP := promote_inRange hR hr
+  have h0R := zero_le_max (promote R)
+  have hzR : (promote R).InRange 0 := ⟨h0R.1, h0R.2⟩
+  have h0 := zero_le_max (promote L)
+  have hz : (promote L).InRange 0 := ⟨h0.1, h0.2⟩
+  have hd31 : 31 ≤ (promote L).digits := by
+    have := promote_bits_ge32 L
+    have := IntTy.bits_eq_digits_succ (promote_signed_of_signed hLs) (promote_bits_ge hL)
+    omega
+  simp only [isOverflowShlNegOrig, binResultTy, posDigits, hLs, Bool.not_true, Bool.false_eq_true, ite_false,
+    cmp_lit hL .lt hl hz, cmp_lit hR .gt hr hzR, cmp_lit hR .lt hr hrP, cmpInt, andThen]
+  have h1 : ((promote L).digits : Int) > 0 := by omega
+  have h2 : (promote L).digits ≠ 0 := by omega
+  simp [h1, h2]
+
+/-- a non-zero left operand whose exact product is in range was shifted by less than the width -/
+theorem shl_count_lt_bits (hl0 : l ≠ 0) (he : (promote L).InRange (l * 2^j)) : j < (promote L).bits := by
+  have hT1 := promote_bits_ge hL
+  have hlT := promote_inRange hL hl
+  have hpj := two_pow_pos j
+  have hmax := IntTy.max_eq (promote L)
+  have hlow := IntTy.lowest_eq (promote L)
+  have hdb := digits_le_bits (promote L)
+  have he1 := he.1; have he2 := he.2
+  by_cases hlp : l > 0
+  · by_cases hge : (promote L).digits ≤ j
+    · have := two_pow_le hge
+      have := mul_pow_ge hpj (show 1 ≤ l by omega)
+      omega
+    · omega
+  · have hTs : (promote L).signed = true := by
+      by_cases h : (promote L).signed = true
+      · exact h
+      · have := nonneg_of_unsigned (by simpa using h) hlT; omega
+    have hb := IntTy.bits_eq_digits_succ hTs hT1
+    simp only [hTs, ite_true] at hlow
+    by_cases hge : (promote L).digits + 1 ≤ j
+    · have := two_pow_le hge
+      rw [two_pow_succ] at this
+      have := mul_pow_le hpj (show l ≤ -1 by omega)
+      have := pow_digits_pos (promote L)
+      omega
+    · omega
+
+/-- `<<` under a reacting tag, every operand type pair, every count `j ≥ 0`: the outcome the tag
+prescribes for `l · 2^j` in the promoted left operand type (no excluded class after the repairs) -/
+theorem checkedBin_shl_eq (path : Path) {tag : OvTag} (ht : tag ≠ .nat) :
     checkedBin path tag .shl (L, l) (R, (j : Int)) = checkedWant tag (promote L) (l * 2^j) := by
   have htag : (tag == OvTag.nat) = false := by simpa using ht
   have hT1 := promote_bits_ge hL
   have hlT := promote_inRange hL hl
   have h0 := zero_le_max (promote L)
   have hpj := two_pow_pos j
+  have hbits := promote_bits_le_int hw
+  have hR32 := (lo_hi (promote R) (promote_bits_ge32 R)).2
+  have h0R := zero_le_max (promote R)
+  have hbR : (promote R).InRange ((promote L).bits : Int) := ⟨by omega, by omega⟩
+  have hzL : (promote L).InRange 0 := ⟨h0.1, h0.2⟩
   simp only [checkedBin, htag, hasBuiltin_shl, binResultTy, Bool.false_eq_true, ite_false,
-    shl_pos_eq hL hR hw hl hr, shl_neg_eq hL hR hw hl hr hm, Res.bind_ok]
+    shl_pos_eq hL hR hw hl hr, shl_neg_eq hL hR hw hl hr, Res.bind_ok, isShift_shl, Bool.true_and,
+    max_promote_bits, cmp_lit hR .ge hr hbR, cmp_lit hL .lt hl hzL, cmpInt]
   by_cases hp : l * 2^j > (promote L).max
   · simp only [hp, decide_true, ite_true]; exact (want_pos ht hp).symm
   · by_cases hn : l * 2^j < (promote L).lowest
     · simp only [hp, hn, decide_true, decide_false, Bool.false_eq_true, ite_false, ite_true, Res.bind_ok]
       exact (want_neg ht hn).symm
     · have he : (promote L).InRange (l * 2^j) := ⟨by omega, by omega⟩
-      have hjb : j < (promote L).bits := by
-        have hmax := IntTy.max_eq (promote L)
-        have hlow := IntTy.lowest_eq (promote L)
-        have hdb := digits_le_bits (promote L)
-        by_cases hl0 : l = 0
-        · omega
-        · by_cases hlp : l > 0
-          · by_cases hge : (promote L).digits ≤ j
-            · have := two_pow_le hge
-              have := mul_pow_ge hpj (show 1 ≤ l by omega)
-              omega
-            · omega
-          · have hTs : (promote L).signed = true := by
-              by_cases h : (promote L).signed = true
-              · exact h
-              · have := nonneg_of_unsigned (by simpa using h) hlT; omega
-            have hb := IntTy.bits_eq_digits_succ hTs hT1
-            simp only [hTs, ite_true] at hlow
-            by_cases hge : (promote L).digits + 1 ≤ j
-            · have := two_pow_le hge
-              rw [two_pow_succ] at this
-              have := mul_pow_le hpj (show l ≤ -1 by omega)
-              have := pow_digits_pos (promote L)
-              omega
-            · omega
-      simp only [hp, hn, decide_false, Bool.false_eq_true, ite_false, Res.bind_ok, cShl_ev hjb,
-        IntTy.wrap_id hT1 he]
-      exact (want_in he).symm
+      by_cases hjb : j < (promote L).bits
+      · have hc : ¬ ((j : Int) ≥ (promote L).bits) := by omega
+        simp only [hp, hn, hc, decide_false, Bool.and_false, Bool.false_eq_true, ite_false, Res.bind_ok,
+          cShl_ev hjb, IntTy.wrap_id hT1 he]
+        exact (want_in he).symm
+      · have hl0 : l = 0 := by
+          by_cases h : l = 0
+          · exact h
+          · exact absurd (shl_count_lt_bits hL hR hw hl hr h he) hjb
+        subst hl0
+        have hc : (j : Int) ≥ (promote L).bits := by omega
+        have hlt : ¬ ((0 : Int) < 0) := by omega
+        simp only [hp, hn, hc, hlt, decide_true, decide_false, Bool.and_true, isShift_shl,
+          Bool.false_eq_true, ite_false, ite_true, Res.bind_ok, lit, convert, IntTy.wrap_id hT1 hzL]
+        rw [Int.zero_mul] at he ⊢
+        exact (want_in he).symm
+
+/-- outside the two repaired classes the as-found tagged `<<` is the repaired one -/
+theorem checkedShiftOrig_shl_eq (path : Path) {tag : OvTag}
+    (hz : ¬(l = 0 ∧ j ≥ (promote L).bits)) (hm : ¬(l = -1 ∧ j = (promote L).digits)) :
+    checkedShiftOrig tag .shl (L, l) (R, (j : Int)) = checkedBin path tag .shl (L, l) (R, (j : Int)) := by
+  by_cases htn : tag = .nat
+  · subst htn; simp [checkedShiftOrig, checkedBin]
+  · have htag : (tag == OvTag.nat) = false := by simpa using htn
+    have hbits := promote_bits_le_int hw
+    have hR32 := (lo_hi (promote R) (promote_bits_ge32 R)).2
+    have h0R := zero_le_max (promote R)
+    have h0 := zero_le_max (promote L)
+    have hbR : (promote R).InRange ((promote L).bits : Int) := ⟨by omega, by omega⟩
+    have hzL : (promote L).InRange 0 := ⟨h0.1, h0.2⟩
+    simp only [checkedShiftOrig, checkedBin, htag, hasBuiltin_shl, binResultTy, Bool.false_eq_true, ite_false,
+      shl_pos_eq hL hR hw hl hr, shl_neg_eq hL hR hw hl hr, shl_neg_orig_eq hL hR hw hl hr hm, Res.bind_ok,
+      isShift_shl, Bool.true_and, max_promote_bits, cmp_lit hR .ge hr hbR, cmp_lit hL .lt hl hzL, cmpInt,
+      beq_self_eq_true, ite_true]
+    by_cases hp : l * 2^j > (promote L).max
+    · simp only [hp, decide_true, ite_true]
+    · by_cases hn : l * 2^j < (promote L).lowest
+      · simp only [hp, hn, decide_true, decide_false, Bool.false_eq_true, ite_false, ite_true, Res.bind_ok]
+      · have he : (promote L).InRange (l * 2^j) := ⟨by omega, by omega⟩
+        have hjb : j < (promote L).bits := by
+          by_cases h : l = 0
+          · omega
+          · exact shl_count_lt_bits hL hR hw hl hr h he
+        have hc : ¬ ((j : Int) ≥ (promote L).bits) := by omega
+        simp only [hp, hn, hc, decide_false, Bool.false_eq_true, ite_false, Res.bind_ok]
+
+/-- `>>` under a reacting tag, every operand type pair, every count `j ≥ 0` (counts at and beyond the
+width included): the floor quotient `l / 2^j` in the promoted left operand type, never a signal -/
+theorem checkedBin_shr_eq (path : Path) {tag : OvTag} (ht : tag ≠ .nat) :
+    checkedBin path tag .shr (L, l) (R, (j : Int)) = .ok (promote L, l / 2^j) := by
+  have htag : (tag == OvTag.nat) = false := by simpa using ht
+  have hT1 := promote_bits_ge hL
+  have hlT := promote_inRange hL hl
+  have h0 := zero_le_max (promote L)
+  have hpj := two_pow_pos j
+  have hbits := promote_bits_le_int hw
+  have hR32 := (lo_hi (promote R) (promote_bits_ge32 R)).2
+  have h0R := zero_le_max (promote R)
+  have hbR : (promote R).InRange ((promote L).bits : Int) := ⟨by omega, by omega⟩
+  have hzL : (promote L).InRange 0 := ⟨h0.1, h0.2⟩
+  simp only [checkedBin, htag, hasBuiltin_shr, binResultTy, Bool.false_eq_true, ite_false,
+    isOverflowBin, Res.bind_ok, isShift_shr, Bool.true_and, max_promote_bits,
+    cmp_lit hR .ge hr hbR, cmp_lit hL .lt hl hzL, cmpInt]
+  by_cases hjb : j < (promote L).bits
+  · have hc : ¬ ((j : Int) ≥ (promote L).bits) := by omega
+    simp only [hc, decide_false, Bool.and_false, Bool.false_eq_true, ite_false, cShr_ev hjb]
+  · have hc : (j : Int) ≥ (promote L).bits := by omega
+    -- every bit is shifted out: |l| < 2^(bits-1) ≤ 2^j
+    have hmax := IntTy.max_eq (promote L)
+    have hlow := IntTy.lowest_eq (promote L)
+    have hdb := digits_le_bits (promote L)
+    have hpd := pow_digits_pos (promote L)
+    have hle := two_pow_le (show (promote L).digits ≤ j by omega)
+    have hl1 := hlT.1; have hl2 := hlT.2
+    by_cases hneg : l < 0
+    · have hTs : (promote L).signed = true := by
+        by_cases h : (promote L).signed = true
+        · exact h
+        · have := nonneg_of_unsigned (by simpa using h) hlT; omega
+      simp only [hTs, ite_true] at hlow
+      have hm1 : (promote L).InRange (-1) := ⟨by omega, by omega⟩
+      have hq : l / 2^j = -1 := by
+        have h1 := Int.ediv_neg_of_neg_of_pos hneg hpj
+        have h2 : -1 ≤ l / 2^j := Int.le_ediv_of_mul_le hpj (by omega)
+        omega
+      simp only [hc, hneg, decide_true, Bool.and_true, isShift_shr, ite_true, lit, convert,
+        IntTy.wrap_id hT1 hm1, hq]
+    · have hq : l / 2^j = 0 := Int.ediv_eq_zero_of_lt (by omega) (by
+        split at hlow <;> omega)
+      simp only [hc, hneg, decide_true, decide_false, Bool.and_true, isShift_shr, Bool.false_eq_true,
+        ite_true, ite_false, lit, convert, IntTy.wrap_id hT1 hzL, hq]
 
 end shl
 
@@ -1220,7 +1419,7 @@ theorem ite_isOk {α : Type} {c : Prop} [Decidable c] {x y : Res α} (hx : c →
 /-- the tagged operator on the portable branch is defined as soon as both tests return and the
 built-in operator is defined whenever neither test fires -/
 theorem checkedBin_defined {path : Path} {tag : OvTag} (ht : Checked tag) {op : BinOp} {x y : TV}
-    (hB : hasBuiltin path op = false)
+    (hB : hasBuiltin path op = false) (hS : isShift op = false)
     (hP : IsOk (isOverflowBin op true x y)) (hN : IsOk (isOverflowBin op false x y))
     (hC : isOverflowBin op true x y = .ok false → isOverflowBin op false x y = .ok false →
       Good (cBin op x y)) :
@@ -1231,7 +1430,7 @@ theorem checkedBin_defined {path : Path} {tag : OvTag} (ht : Checked tag) {op : 
   simp only [checkedBin, htag, hB, hp, hn, Bool.false_eq_true, ite_false, Res.bind_ok]
   cases p
   · cases n
-    · simp only [Bool.false_eq_true, ite_false, Res.bind_ok]; exact hC hp hn
+    · simp only [hS, Bool.false_and, Bool.false_eq_true, ite_false, Res.bind_ok]; exact hC hp hn
     · simp only [Bool.false_eq_true, ite_false, ite_true, Res.bind_ok]; exact react_defined ht _ _
   · simp only [ite_true]; exact react_defined ht _ _
 
@@ -1358,7 +1557,7 @@ theorem portable_arith_defined {op : BinOp} (hop : op = .add ∨ op = .sub ∨ o
     · rw [portable_sub_fits ht.ne_nat hL hR hl hr hlT hrT]; exact want_defined ht _ _
     · rw [portable_mul_fits ht.ne_nat hL hR hl hr hlT hrT (hg rfl)]; exact want_defined ht _ _
   · have hu : (usualArith L R).signed = false := by simpa using hTs
-    exact checkedBin_defined ht (hasBuiltin_portable _)
+    exact checkedBin_defined ht (hasBuiltin_portable _) (by rcases hop with e | e | e <;> subst e <;> rfl)
       (isOverflow_isOk_unsigned hL hR hl hr hu hop true) (isOverflow_isOk_unsigned hL hR hl hr hu hop false)
       (fun _ _ => isOk_defined (cBin_unsigned_isOk rfl hu hop _ _))
 
@@ -1370,7 +1569,7 @@ theorem div_defined (path : Path) (hr0 : r ≠ 0) :
   have hLT : usualArith L (usualArith L R) = usualArith L R := (usualArith_absorb L R).2.2.1
   have hlm := lowest_max (usualArith L R)
   have h0 := zero_le_max (usualArith L R)
-  apply checkedBin_defined ht (hasBuiltin_div path)
+  apply checkedBin_defined ht (hasBuiltin_div path) rfl
   · simp only [isOverflowBin, rbool]
     exact ite_isOk (fun _ => andThen_isOk fun _ => isOk_ok _) (fun _ => isOk_ok _)
   · simp only [isOverflowBin]; exact isOk_ok _
@@ -1406,39 +1605,13 @@ variable {tag : OvTag} (ht : Checked tag) {L R : IntTy} (hL : 1 ≤ L.bits) (hR 
   (hw : L.bits ≤ 2147483647) {l : Int} {j : Nat} (hl : L.InRange l) (hr : R.InRange (j : Int))
 include ht hL hR hw hl hr
 
-/-- `-1 << digits` is flagged (wrongly for C06, harmlessly for C07) -/
-theorem shl_neg_minus_one (hm : l = -1 ∧ j = (promote L).digits) :
-    isOverflowBin .shl false (L, l) (R, (j : Int)) = .ok true := by
-  obtain ⟨rfl, rfl⟩ := hm
-  have hLs : L.signed = true := by
-    by_cases h : L.signed = true
-    · exact h
-    · have := nonneg_of_unsigned (by simpa using h) hl; omega
-  have hrP := promote_inRange hR hr
-  have h0R := zero_le_max (promote R)
-  have hzR : (promote R).InRange 0 := ⟨h0R.1, h0R.2⟩
-  have h0 := zero_le_max (promote L)
-  have hz : (promote L).InRange 0 := ⟨h0.1, h0.2⟩
-  have hd31 : 31 ≤ (promote L).digits := by
-    have := promote_bits_ge32 L
-    have := IntTy.bits_eq_digits_succ (promote_signed_of_signed hLs) (promote_bits_ge hL)
-    omega
-  simp only [isOverflowBin, binResultTy, posDigits, hLs, Bool.not_true, Bool.false_eq_true, ite_false,
-    cmp_lit hL .lt hl hz, cmp_lit hR .gt hr hzR, cmp_lit hR .lt hr hrP, cmpInt, andThen]
-  have h1 : ((promote L).digits : Int) > 0 := by omega
-  have h2 : (promote L).digits ≠ 0 := by omega
-  simp [h1, h2]
-
-theorem shl_defined (path : Path) (hz : ¬(l = 0 ∧ j ≥ (promote L).bits)) :
+theorem shl_defined (path : Path) :
     Good (checkedBin path tag .shl (L, l) (R, (j : Int))) := by
-  by_cases hm : l = -1 ∧ j = (promote L).digits
-  · have htag : (tag == OvTag.nat) = false := by simpa using ht.ne_nat
-    simp only [checkedBin, htag, hasBuiltin_shl, binResultTy, Bool.false_eq_true, ite_false,
-      shl_pos_eq hL hR hw hl hr, shl_neg_minus_one ht hL hR hw hl hr hm, Res.bind_ok]
-    split
-    · exact react_defined ht _ _
-    · exact react_defined ht _ _
-  · rw [checkedBin_shl_eq hL hR hw hl hr path ht.ne_nat hz hm]; exact want_defined ht _ _
+  rw [checkedBin_shl_eq hL hR hw hl hr path ht.ne_nat]; exact want_defined ht _ _
+
+theorem shr_defined (path : Path) :
+    Good (checkedBin path tag .shr (L, l) (R, (j : Int))) := by
+  rw [checkedBin_shr_eq hL hR hw hl hr path ht.ne_nat]; exact good_ok _
 
 end total_shl
 
